@@ -180,6 +180,19 @@ DestrLoop(x, what) ==
     [] x.k \in {"map", "object"} -> x.len = 0 \/ what = "entries"
     [] OTHER -> FALSE
 
+(* Loops whose body changes the collection they run over.  A loop over a set,
+   a map, an object or a string runs over the members present when it starts
+   (a snapshot: additions and removals do not reach the loop); a loop over a
+   list follows the list as it grows (the form ends it with `break`).  The
+   body runs at least once iff the collection is not empty (the pool's input
+   holds two lines); then the outcome is the outcome of the body's statement. *)
+BodyRuns(x) == x.k = "input" \/ x.len > 0
+Snapshot(x) == x.k \in {"set", "map", "object", "string"}
+MutLoop(x, bodyOK) == C(Loopable(x) /\ (~BodyRuns(x) \/ bodyOK))
+PutTextKey(x) == x.k \in {"map", "object"}                 \* x['zz'] = 1, x[k + 'x'] = 1
+Removable(x) == x.k \in {"list", "set", "map", "object"}    \* remove(x, k)
+Appendable(x) == IsColl(x)                                  \* append(x, v)
+
 \* spreading x into (fn(a, b = 0) a)(...x) and into (fn(a...) a...)(...x)
 SpreadFixed(x) == x.tag \in {"l2", "set1", "map1"}
 SpreadRest(x) == Spreadable(x) /\ x.tag # "map1"     \* a named argument the lambda lacks
@@ -253,6 +266,12 @@ Forms ==
   << F("for_destr", 1, "for [a, b] in p0 do a end"),
      F("for_destr_entries", 1, "for [a, b] in entries p0 do a end"),
      F("for_reuse", 1, "for v in p0 do for v in p0 do v end end"),
+     \* round 2: loops whose body changes the collection they run over
+     F("for_put", 1, "for v in p0 do p0['zz'] = 1 end"),
+     F("for_keys_put", 1, "for k in keys p0 do p0[k + 'x'] = 1 end"),
+     F("for_keys_remove", 1, "for k in keys p0 do remove(p0, k) end"),
+     F("for_append", 1, "for v in p0 do append(p0, v); if length(p0) > 6 then break end"),
+     F("lc_remove", 1, "[remove(p0, k) for k in keys p0]"),
      F("lc", 1, "[v for v in p0]") >> \o LcWhat \o
   << F("sc", 1, "<<v for v in p0>>") >> \o ScWhat \o
   << F("mc", 1, "<<<v => v for v in p0>>>") >> \o McWhat \o
@@ -263,6 +282,8 @@ Forms ==
      F("assign_destr", 1, "def a = 0; def b = 0; [a, b] = p0; a"),
      F("member", 1, "p0->a"),
      F("member_invoke", 1, "p0->a()"),
+     F("member_missing", 1, "p0->zz"),             \* no object of the `_proto_` chain has it
+     F("member_missing_invoke", 1, "p0->zz()"),
      F("call0", 1, "p0()"),
      F("set_lit", 1, "<<p0>>"),
      F("map_lit_key", 1, "<<<p0 => 1>>>"),
@@ -274,6 +295,7 @@ Forms ==
      F("fmt_zero", 1, "s('{p0#05}')"),
      F("fmt_digits", 1, "s('{p0#.2}')"),
      F("fmt_hex", 1, "s('{p0#x}')"),
+     F("fmt_wide", 1, "s('{p0#4000000}')"),        \* padding is linear in the width
      F("fmt_bad", 1, "s('{p0#q}')") >>
   \o BinForms \o CompoundForms \o
   << F("numerical_min", 2, "p0 is numerical min_len p1"),
@@ -356,6 +378,10 @@ Rule(name, w, a, b, c) ==
     [] name = "error" -> "error"
     [] name = "catch_all" -> "value"
     [] name \in {"for", "for_keys", "for_values", "for_entries", "for_reuse"} -> C(Loopable(a))
+    [] name \in {"for_put", "for_keys_put"} -> MutLoop(a, PutTextKey(a))
+    [] name = "for_keys_remove" -> MutLoop(a, Removable(a))
+    [] name = "for_append" -> MutLoop(a, Appendable(a))
+    [] name = "lc_remove" -> C(Iterable(a) /\ (a.len = 0 \/ Removable(a)))
     [] name = "for_destr" -> C(DestrLoop(a, "values"))
     [] name = "for_destr_entries" -> C(DestrLoop(a, "entries"))
     [] name \in {"lc", "lc_keys", "lc_values", "lc_entries", "sc", "sc_keys", "sc_values",
@@ -366,10 +392,12 @@ Rule(name, w, a, b, c) ==
     [] name \in {"def_destr", "assign_destr"} -> C(IsColl(a))
     [] name = "member" -> C(DerefK(a, ByTag("sa")) # "err")
     [] name = "member_invoke" -> "error"     \* no pool value has a function member
+    [] name = "member_missing" -> C(a.k \in {"null", "object"})    \* NULL: not found along `_proto_`
+    [] name = "member_missing_invoke" -> "error"
     [] name = "call0" -> "error"             \* the pool's functions take one argument
     [] name \in {"set_lit", "map_lit_key", "obj_lit"} -> "value"
     [] name = "require" -> "error"           \* no pool value names a module
-    [] name \in {"fmt_plain", "fmt_width", "fmt_left", "fmt_zero"} -> C(HasAsString(a))
+    [] name \in {"fmt_plain", "fmt_width", "fmt_left", "fmt_zero", "fmt_wide"} -> C(HasAsString(a))
     [] name = "fmt_digits" -> FmtDigits(a)
     [] name = "fmt_hex" -> FmtHex(a)
     [] name = "fmt_bad" -> "error"
